@@ -4,6 +4,7 @@ pub mod c01;
 pub mod c03;
 pub mod c04;
 pub mod c12;
+pub mod c16;
 pub mod mutate;
 pub mod pipeline;
 pub mod prog;
@@ -30,5 +31,6 @@ pub fn registry() -> Vec<Property> {
         Property { id: "C03", gen: c03::gen, exec: c03::exec, shrink: c03::shrink, runs: (60, 900) },
         Property { id: "C04", gen: c04::gen, exec: c04::exec, shrink: c04::shrink, runs: (160, 2500) },
         Property { id: "C12", gen: c12::gen, exec: c12::exec, shrink: c12::shrink, runs: (3000, 60000) },
+        Property { id: "C16", gen: c16::gen, exec: c16::exec, shrink: c16::shrink, runs: (400, 8000) },
     ]
 }
